@@ -366,4 +366,12 @@ theorem legalChildren_legal (basis : Array W) (p : Pos) (m : Move)
     subst h1
     exact ⟨q', ha⟩
 
+theorem wrap8_small (v : Nat) (h : v ≤ 7) : wrap8 (v : Int) = (v : Int) := by
+  unfold wrap8; omega
+
+theorem squareAt_nil (p : Pos) (i : Nat) (h : (p.white ||| p.black).getLsbD i = false) : p.squareAt i = [] := by
+  simp only [BitVec.getLsbD_or, Bool.or_eq_false_iff] at h
+  unfold Pos.squareAt Pos.topAt
+  simp [h.1, h.2]
+
 end Proofs.MCTS
